@@ -694,14 +694,14 @@ func c05AllocBudget(n int) uint64 { return 2<<20 + 16384*uint64(n) }
 
 // c05DecodeBudget bounds what a DECODER alone may allocate for an n-byte input (decoded objects are a
 // few times the size of their encoding; measured maxima stay below a quarter of this).
-func c05DecodeBudget(n int) uint64 { return 32<<10 + 128*uint64(n) }
+func c05DecodeBudget(n int) uint64 { return 64<<10 + 128*uint64(n) }
 
 // c05Decode runs one decoder call and reports a failure if it allocates beyond the decode budget.
 func c05Decode(what string, n int, fn func()) *hx.Failure {
 	a0 := c05Allocated()
 	fn()
 	if used := c05Allocated() - a0; used > c05DecodeBudget(n) {
-		return hx.Failf("memory:decode:"+what, "%s allocated %d bytes while decoding a %d-byte input (budget: 32 KiB + 128 bytes per input byte)", what, used, n)
+		return hx.Failf("memory:decode:"+what, "%s allocated %d bytes while decoding a %d-byte input (budget: 64 KiB + 128 bytes per input byte)", what, used, n)
 	}
 	return nil
 }
@@ -855,7 +855,7 @@ func c05Run2(c CaseC05, in []byte) *hx.Failure {
 			pk.SetPID(c.Arg & 0x1FFF)
 			pk.SetContinuityCounter(c.Arg & 15)
 			pk.IncContinuityCounter()
-			pk.SetTransportScramblingControl(packet.TransportScramblingControlOptions(c.Arg & 3))
+			pk.SetTransportScramblingControl(packet.TransportScramblingControlOptions([]int{0, 2, 3}[c.Arg%3])) // not the reserved 01
 		default:
 			af, err := pk.AdaptationField()
 			if err != nil {
@@ -1122,7 +1122,7 @@ func checkC05(c CaseC05, x *hx.Ctx) *hx.Failure {
 var propC05 = hx.Register(hx.Prop[CaseC05]{ID: "C05", Gen: genC05, Check: checkC05})
 
 func c05Rule() {
-	hx.Rec("C05").SetRule("cases: (entry-point group, input) over 17 groups: packet accessors / adaptation-field getters / modifiers on 188-byte arrays; FromBytes; PSI accessors; NewPAT, NewPMT (+ every getter, descriptor decoder, String, RemoveElementaryStreams), descriptor decoders directly, FilterPMTPacketsToPids; NewPESHeader; ReadEncoderBoundaryPoint; NewSCTE35 (+ every getter of signal/command/descriptors, String, then UpdateData and a re-decode of what it emits); Sync, ReadPAT, ReadPMT, accumulator, IOWriter.Write/ReadFrom over byte streams through fragmenting and failing readers. Inputs come from three families: well-formed instances from the reference builders; those instances mutated 1..3 times (truncate anywhere, boundary constants 0x00/0xFF/0x7F/0x80/0x0D/0x47/183/184/188 at any offset, +-1/2 on any byte, random byte, extension, bit flip, byte removal; for packets: af_len 0..255, flags byte, AFC, variable-field length bytes; for SCTE-35: UPID type forced to MID with any residual length, segmentation descriptors ending 1..6 bytes early or 1..3 late inside otherwise consistent lengths, and 65 KiB sections with descriptor_loop_length >= 65270 ending up to 3 bytes short/long; for the PMT filter: 355..360 packets (more than 64 KiB) on the PMT PID behind a first section of another table with section_length 0..6); arbitrary bytes. Oracle: no panic (recovered, keyed by innermost library function + statement text), returns within 20 s and below 1 GiB heap (in-process watchdog), every decoder call (NewPAT, NewPMT, NewPESHeader, ReadEncoderBoundaryPoint, NewSCTE35) allocates at most 32 KiB + 128 bytes per input byte (exact TotalAlloc deltas; printing and re-encoding are only required not to panic), read-only operations leave the caller's buffer byte-identical, objects returned without error survive all getters, printing and re-encoding. Non-trivial: input from the mutated, arbitrary, bigloop or bigfirst family; distinct by (target, input).",
+	hx.Rec("C05").SetRule("cases: (entry-point group, input) over 17 groups: packet accessors / adaptation-field getters / modifiers on 188-byte arrays; FromBytes; PSI accessors; NewPAT, NewPMT (+ every getter, descriptor decoder, String, RemoveElementaryStreams), descriptor decoders directly, FilterPMTPacketsToPids; NewPESHeader; ReadEncoderBoundaryPoint; NewSCTE35 (+ every getter of signal/command/descriptors, String, then UpdateData and a re-decode of what it emits); Sync, ReadPAT, ReadPMT, accumulator, IOWriter.Write/ReadFrom over byte streams through fragmenting and failing readers. Inputs come from three families: well-formed instances from the reference builders; those instances mutated 1..3 times (truncate anywhere, boundary constants 0x00/0xFF/0x7F/0x80/0x0D/0x47/183/184/188 at any offset, +-1/2 on any byte, random byte, extension, bit flip, byte removal; for packets: af_len 0..255, flags byte, AFC, variable-field length bytes; for SCTE-35: UPID type forced to MID with any residual length, segmentation descriptors ending 1..6 bytes early or 1..3 late inside otherwise consistent lengths, and 65 KiB sections with descriptor_loop_length >= 65270 ending up to 3 bytes short/long; for the PMT filter: 355..360 packets (more than 64 KiB) on the PMT PID behind a first section of another table with section_length 0..6); arbitrary bytes. Oracle: no panic (recovered, keyed by innermost library function + statement text), returns within 20 s and below 1 GiB heap (in-process watchdog), every decoder call (NewPAT, NewPMT, NewPESHeader, ReadEncoderBoundaryPoint, NewSCTE35) allocates at most 64 KiB + 128 bytes per input byte (exact TotalAlloc deltas; printing and re-encoding are only required not to panic), read-only operations leave the caller's buffer byte-identical, objects returned without error survive all getters, printing and re-encoding. Non-trivial: input from the mutated, arbitrary, bigloop or bigfirst family; distinct by (target, input).",
 		"a returned error is always acceptable",
 		"the CLI main package is not driven in-process",
 		"hang / heap thresholds (20 s, 1 GiB) are four to six orders of magnitude above the normal cost of a case; the decoders' allocation budget is 4x above the maximum measured on the repaired tree (TestC05_ZAllocSurvey)")
